@@ -71,3 +71,7 @@ claim("C18", "DESIGN.md 3/C18",
       "fault enumeration: configs with 1-2 healthy tests and every placement of 1-2 (thorough 3) failing entries from 8 fault kinds (unknown module/test, rejected parameters, missing required input, raising function, aggregate entry, absent stream id) - in the same stream in every order, in another stream, in another context with/without a window - on 9 front-end variants, collected as list and dict; the run must complete, failing entries contribute nothing, every healthy result equals the result of the configuration containing only that entry",
       "differential oracle on the same front end; 4 rows (thorough 3-5); absent stream ids not judged on array-input front ends",
       "exhaustive enumeration of fault placements (explicit-state, bounded) executing the real stream/config/collector code")
+claim("C19", "DESIGN.md 3/C19",
+      "189 stream runs (every set of 1-2 stream ids incl. CF-unsafe ones x test subsets x 3 window layouts) x every save variant (write_data x write_axes, include/exclude over every list of <=2 items of stream ids / test names / functions, single-item include x exclude pairs) with and without compute_aggregate: rows, column set, CF-safe names, values with NaN where unevaluated, axis/data columns, filter semantics and the roll-up column are compared with a reference frame; cf_safe_name on every string of length<=3 over 9 characters",
+      "tables always have all axes; frames with no column and colliding sanitised ids not judged; roll-up judged without filters",
+      TECH_TREE)
